@@ -32,4 +32,5 @@ timeout 3000 cargo test --offline --test seed_$NAME -- --test-threads 1 > /tmp/s
 tail -8 /tmp/seed/$ID/$NAME.without.out
 echo "RESULT name=$NAME demo_with_change_exit=$W suite_with_change_exit=$S demo_without_change_exit=$O"
 if [ $W -ne 0 ] && [ $S -eq 0 ] && [ $O -eq 0 ]; then echo "CONFIRMED $NAME"; else echo "NOT-CONFIRMED $NAME"; fi
+find $CARGO_TARGET_DIR/debug/deps -maxdepth 1 -type f -executable ! -name "*.so" -delete 2>/dev/null; rm -rf $CARGO_TARGET_DIR/debug/incremental
 cd /; git -C /repo worktree remove --force $WT
